@@ -616,6 +616,20 @@ func (ii *InstInfo) addContracts(p *Program, cs *ContractSet, prop string) error
 			if len(loops) == 0 {
 				continue
 			}
+			// element-type mismatch: a container whose declared element type differs from
+			// the one on the wire is skipped, never decoded (empty result)
+			if rt := f.Signature.Results().At(0).Type(); f.Signature.Results().Len() == 2 {
+				var et types.Type
+				switch tt := rt.Underlying().(type) {
+				case *types.Slice:
+					et = tt.Elem()
+				case *types.Map:
+					et = tt.Key()
+				}
+				if code := goWireCode(et); code != 0 {
+					ct.Ensures = append(ct.Ensures, cl("ensures", "mismatch", fmt.Sprintf("err == nil && int8(rin(sr)[p0]) != %d ==> len(result0) == 0", code)))
+				}
+			}
 		case "ReadMapBegin":
 			for n := 1; n <= len(loops); n++ {
 				ct.LoopInv[n] = []*Clause{
@@ -633,6 +647,7 @@ func (ii *InstInfo) addContracts(p *Program, cs *ContractSet, prop string) error
 				continue
 			}
 		}
+		ct.ErrsFromCallees = true
 		if _, dup := cs.ByFunc[ct.Func]; dup {
 			continue
 		}
@@ -698,6 +713,7 @@ func (ii *InstInfo) addPresence(f *ssa.Function, ct *Contract) {
 				terms = append(terms, fmt.Sprintf("ite(%s.%s != nil, 1, 0)", recvName, stt.Field(i).Name()))
 			}
 			ct.Ensures = append(ct.Ensures, cl("ensures", "arity", "err == nil ==> "+strings.Join(terms, " + ")+" == 1"))
+			ct.ErrsUnless = joinOr(ct.ErrsUnless, "!("+strings.Join(terms, " + ")+" == 1)")
 			ii.presence++
 		}
 		for i, fl := range fields {
@@ -739,8 +755,16 @@ func (ii *InstInfo) addPresence(f *ssa.Function, ct *Contract) {
 			cl("use", "", fmt.Sprintf("unfoldHas(rin(sr), rpos(sr) - 3, %d, %d)", fl.ID, fl.Code)),
 			cl("use", "", fmt.Sprintf("unfoldHas(rin(sr), rpos(sr) - 1, %d, %d)", fl.ID, fl.Code)))
 		ct.Ensures = append(ct.Ensures, cl("ensures", "required_"+fl.Name, fmt.Sprintf("err == nil ==> hasField(rin(sr), p0, %d, %d)", fl.ID, fl.Code)))
+		ct.ErrsUnless = joinOr(ct.ErrsUnless, fmt.Sprintf("!hasField(rin(sr), p0, %d, %d)", fl.ID, fl.Code))
 		ii.presence++
 	}
+}
+
+func joinOr(a, b string) string {
+	if a == "" {
+		return b
+	}
+	return a + " || " + b
 }
 
 // addAllocContracts (C13): every emitted container decoder carries an
@@ -932,4 +956,54 @@ func firstStreamCall(f *ssa.Function) string {
 	return ""
 }
 
-func selftest(args []string) int { return 2 }
+// selftest: the must-fail regression over the seeded changes (seeded/run_all.sh):
+// every seed is applied to /repo in turn, the check of its property must report
+// a violation, and the tree is restored. /repo must be clean.
+func selftest(args []string) int {
+	dir := "/verif"
+	if len(args) > 0 {
+		dir = args[0]
+	}
+	cmd := exec.Command(filepath.Join(dir, "seeded", "run_all.sh"))
+	cmd.Stdout, cmd.Stderr = os.Stdout, os.Stderr
+	if err := cmd.Run(); err != nil {
+		return 1
+	}
+	return 0
+}
+
+// goWireCode: the wire type code of a Go element type when it is unambiguous
+// (scalars, strings / byte slices, struct pointers); 0 otherwise.
+func goWireCode(t types.Type) int {
+	if t == nil {
+		return 0
+	}
+	switch tt := t.Underlying().(type) {
+	case *types.Basic:
+		switch tt.Kind() {
+		case types.Bool:
+			return 2
+		case types.Int8:
+			return 3
+		case types.Float64:
+			return 4
+		case types.Int16:
+			return 6
+		case types.Int32:
+			return 8
+		case types.Int64:
+			return 10
+		case types.String:
+			return 11
+		}
+	case *types.Slice:
+		if b, ok := tt.Elem().Underlying().(*types.Basic); ok && b.Kind() == types.Uint8 {
+			return 11
+		}
+	case *types.Pointer:
+		if _, ok := tt.Elem().Underlying().(*types.Struct); ok {
+			return 12
+		}
+	}
+	return 0
+}
